@@ -18,6 +18,7 @@ func init() {
 			c19R2(c, "C19.R2")
 			c19R3(c, "C19.R3")
 			c19R4(c, "C19.R4")
+			rulePageTypeExact(c, "C19.R5")
 		},
 	})
 }
@@ -600,4 +601,49 @@ func mustPassInLoop(fn *ssa.Function, call *ssa.Call) bool {
 	}
 	_ = body
 	return true
+}
+
+// rulePageTypeExact (C19.R5 / C12.R9): "of an invalid type" is detected through the page-type predicates;
+// they must hold for exactly one flags value each (a page carrying its type bit plus any other bit is NOT
+// of that type — the v2 format allows a single type flag). Tabulated over sample flag words.
+func rulePageTypeExact(c *Ctx, id string) {
+	c.rule(id, "page-type-predicates-exact", 5, func() {
+		want := map[string]func(f uint64) bool{
+			"common.(*Page).IsBranchPage":   func(f uint64) bool { return f == 0x01 },
+			"common.(*Page).IsLeafPage":     func(f uint64) bool { return f == 0x02 },
+			"common.(*Page).IsMetaPage":     func(f uint64) bool { return f == 0x04 },
+			"common.(*Page).IsFreelistPage": func(f uint64) bool { return f == 0x10 },
+			"common.(*Page).IsValidPage":    func(f uint64) bool { return f == 1 || f == 2 || f == 4 || f == 0x10 },
+		}
+		samples := []uint64{0, 1, 2, 3, 4, 5, 6, 0x10, 0x11, 0x12, 0x14, 0x20, 0x22, 0x0101, 0x8002, 0xFFFF}
+		for _, name := range sortedKeys(want) {
+			fn := c.fn(name)
+			bad := ""
+			for _, f := range samples {
+				ev := &Evaluator{
+					Load: func(u *ssa.UnOp) (V, bool) {
+						if strings.HasSuffix(pathOf(u).Names(), "flags") {
+							return uV(f), true
+						}
+						return unkV, false
+					},
+					Inline: func(g *ssa.Function) bool { _, ok := want[shortFn(g)]; return ok },
+				}
+				o := ev.Exec(fn, nil)
+				got, ok := false, false
+				if o.Kind == "return" && len(o.Rets) == 1 {
+					got, ok = o.Rets[0].Bool()
+				}
+				if !ok {
+					bad = fmt.Sprintf("flags %#x: %s", f, o)
+					break
+				}
+				if got != want[name](f) {
+					bad = fmt.Sprintf("flags %#x: %s() = %v, want %v (a page whose flags word is not exactly one type flag has an invalid type)", f, strings.TrimPrefix(name, "common.(*Page)."), got, want[name](f))
+					break
+				}
+			}
+			c.check(id+":"+name+":table", fn, fn.Pos(), fmt.Sprintf("the predicate holds for exactly its own flag value (%d sample flag words)", len(samples)), bad == "", bad)
+		}
+	})
 }
